@@ -1030,22 +1030,26 @@ func Run(tier, replay string) {
 		rep.Finish()
 	}
 
-	// (S) the design-level model
-	calls := map[string]string{}
-	if tier == "thorough" {
-		calls["MaxCalls"] = "4" // histories of four API calls (quick: three)
-	}
+	// (S) the design-level model: all histories of 3 calls / direct edits over the configurations with
+	// few operands, and all histories of 2 over every configuration
 	nConfigStates := t.Distinct
-	t = mbt.MustTLC(mbt.TLCOpts{Spec: "Operands", Cfg: "Operands.cfg", Consts: calls, Timeout: 15 * time.Minute})
-	if len(t.Violated) > 0 {
-		mbt.Infra("Operands.tla with AsImplemented=FALSE violates %v: specification error", t.Violated)
+	bounds := []map[string]string{{"MaxCalls": "3", "MaxOps": "4"}, {"MaxCalls": "2", "MaxOps": "20"}}
+	if tier == "thorough" {
+		bounds[0] = map[string]string{"MaxCalls": "3", "MaxOps": "6"}
 	}
-	rep.AddTLC(t)
-	t.Cleanup()
-	for _, inv := range []string{"NoUseLeft", "SuccsLive", "Complete"} {
-		t := mbt.MustTLC(mbt.TLCOpts{Spec: "Operands", Cfg: "OperandsImpl_" + inv + ".cfg", Timeout: 10 * time.Minute})
+	for _, b := range bounds {
+		t = mbt.MustTLC(mbt.TLCOpts{Spec: "Operands", Cfg: "Operands.cfg", Consts: b, Timeout: 20 * time.Minute})
+		if len(t.Violated) > 0 {
+			mbt.Infra("Operands.tla with Dev={} violates %v: specification error", t.Violated)
+		}
+		rep.AddTLC(t)
+		t.Cleanup()
+	}
+	// every deviation the model knows must violate its property (the model is sensitive to it)
+	for _, dev := range []string{"HideBundles", "WrapArgs", "CacheSuccs", "CacheOps", "DedupSuccs"} {
+		t := mbt.MustTLC(mbt.TLCOpts{Spec: "Operands", Cfg: "OperandsDev_" + dev + ".cfg", Timeout: 10 * time.Minute})
 		if len(t.Violated) == 0 {
-			mbt.Infra("vacuity guard: Operands.tla with AsImplemented=TRUE does not violate %s", inv)
+			mbt.Infra("vacuity guard: Operands.tla with deviation %s violates nothing", dev)
 		}
 		t.Cleanup()
 	}
